@@ -4,6 +4,7 @@ package main
 
 import (
 	"fmt"
+	"go/token"
 	"math/big"
 	"sort"
 	"strconv"
@@ -371,13 +372,29 @@ func checkC12(r *Result) {
 						return true, true
 					}
 					return false, false
+				}},
+				{Name: "prevote", Stable: true, Cond: func(rel *Term) (bool, bool) {
+					if rel.Op == "==" && len(rel.Args) == 2 && strings.HasPrefix(rel.Args[0].Op, "field:x/dispute/types.Dispute.DisputeStatus") && rel.Args[1].Op == "const:"+enumVal(P, "x/dispute/types", "Prevote") {
+						return true, true
+					}
+					return false, false
 				}}}
 			ps := AnalyzePaths(fn, atoms)
+			if strings.HasSuffix(name, "AddFeeToDispute") {
+				// the stored amounts change after execution (a winning reporter's SlashAmount grows), so "fee not yet met"
+				// does not identify a dispute that waits for funding: the status itself is tested (D23)
+				for _, cs := range P.CallSitesIn(fn) {
+					if cs.Callee == "(x/dispute/keeper.Keeper).PayDisputeFee" || cs.Callee == "(x/dispute/keeper.Keeper).SlashAndJailReporter" || cs.Callee == "(x/dispute/keeper.Keeper).SetStartVote" {
+						bad := ps.Require(cs.Instr, func(v map[string]bool) bool { return v["prevote"] })
+						r.check(len(bad) == 0 && len(ps.Matched["prevote"]) > 0, "TYPESTATE", name+" # "+cs.Method+" only for a dispute in Prevote", P.Pos(cs.Pos()), fmt.Sprintf("valuations: %v", statesStr(ps, cs.Instr)))
+					}
+				}
+			}
 			eachStore(fn, storeStatus("Voting"), func(in ssa.Instruction) {
 				bad := ps.Require(in, func(v map[string]bool) bool {
 					ok := v["feeMet"]
 					if strings.HasSuffix(name, "AddFeeToDispute") {
-						ok = ok && !v["alreadyMet"] && !v["expired"]
+						ok = ok && !v["alreadyMet"] && !v["expired"] && v["prevote"]
 					}
 					return ok
 				})
@@ -1143,6 +1160,44 @@ func checkTallyFormula(r *Result) {
 			}
 		}
 		r.check(nCalls == 3, "TALLY-FORMULA", "(x/dispute/keeper.Keeper).TallyVote # three UpdateDispute sites (quorum before / after the holders, no quorum)", P.Pos(tv.Pos()), fmt.Sprint(nCalls))
+	}
+	// totals near 2^64: a group's three counters are uint64, their sum is formed in math.Int (each counter converted
+	// on its own), never in uint64 arithmetic where it would wrap
+	{
+		n, okAll, det := 0, true, ""
+		for _, cs := range P.CallSitesIn(tv) {
+			if cs.Callee != "x/dispute/keeper.Ratio" {
+				continue
+			}
+			n++
+			var leavesOK func(v ssa.Value, depth int) bool
+			leavesOK = func(v ssa.Value, depth int) bool {
+				if depth > 8 {
+					return false
+				}
+				c, ok := v.(*ssa.Call)
+				if !ok {
+					if ld, isLoad := v.(*ssa.UnOp); isLoad && ld.Op == token.MUL {
+						// a tally slot: filled by NewIntFromUint64(counter) (TALLY-FORMULA slot obligations)
+						return strings.Contains(tm.Of(v).String(), "NewIntFromUint64") || strings.Contains(tm.Of(v).Op, "field:")
+					}
+					return false
+				}
+				switch CalleeName(c.Common()) {
+				case "(cosmossdk.io/math.Int).Add":
+					return leavesOK(c.Call.Args[0], depth+1) && leavesOK(c.Call.Args[1], depth+1)
+				case "cosmossdk.io/math.NewIntFromUint64":
+					_, isBin := c.Call.Args[0].(*ssa.BinOp)
+					_, isCall := c.Call.Args[0].(*ssa.Call)
+					return !isBin && !isCall
+				}
+				return false
+			}
+			if !leavesOK(Arg(cs.Instr, 1), 0) {
+				okAll, det = false, P.Pos(cs.Pos())+": "+clip(tm.Of(Arg(cs.Instr, 1)).String(), 140)
+			}
+		}
+		r.check(okAll && n == 3, "TALLY-FORMULA", "(x/dispute/keeper.Keeper).TallyVote # each group's vote sum is formed in math.Int from separately converted counters (no uint64 addition that could wrap near 2^64)", P.Pos(tv.Pos()), fmt.Sprintf("%d group sums %s", n, det))
 	}
 	// the participation ratio is the sum of the groups' ratios (and the team's 25 * PR), starting at zero
 	{
